@@ -18,7 +18,7 @@ Definition accepted (i : val) : Z + wreq :=
   | VL [VZ 3; VL ps; VB b] => match all_some (map dec_pair ps) with Some fs => front_spdyb fs (Some b) | None => inl 0 end
   | _ => inl 0
   end.
-(* Request.write (after fixes 4b1c... see known_findings/C25.txt) writes nothing and returns an error when
+(* Request.write (after fixes c496926 505d2ce 4b75bc7 d4ea2c7, see known_findings/C25.txt) writes nothing and returns an error when
    the method is not a token, the request-target has SP/CTL, Host has CR/LF or a header name is not a token *)
 Definition run_C25 (i : val) : val :=
   match accepted i with
